@@ -385,8 +385,8 @@ def values_for(d, rng, n_random):
 
 
 # ---------------------------------------------------------------- value trees (canonical comparison)
-def parse_value(tokens, i=0):
-    """token list -> nested tuple, next index"""
+def parse_value(tokens, i=0, keep=False):
+    """token list -> nested tuple, next index; keep=True preserves map entry order and duplicates"""
     t = tokens[i]
     c = t[0]
     if c in "BZX":
@@ -394,23 +394,25 @@ def parse_value(tokens, i=0):
     if c == "N":
         return None, i + 1
     if c == "J":
-        return parse_value(tokens, i + 1)
+        return parse_value(tokens, i + 1, keep)
     n_str = t[1:]
     if c == "A":
         n = int(n_str)
         items, j = [], i + 1
         for _ in range(n):
-            v, j = parse_value(tokens, j)
+            v, j = parse_value(tokens, j, keep)
             items.append(v)
         return ("A", tuple(items)), j
     if c == "P":
         n = int(n_str)
         items, j = [], i + 1
         for _ in range(n):
-            k, j = parse_value(tokens, j)
-            v, j = parse_value(tokens, j)
+            k, j = parse_value(tokens, j, keep)
+            v, j = parse_value(tokens, j, keep)
             items.append((k, v))
         # Go map semantics: a later duplicate key replaces the earlier one; order is irrelevant
+        if keep:
+            return ("P", tuple(items)), j
         d = {}
         for k, v in items:
             d[k] = v
@@ -419,7 +421,7 @@ def parse_value(tokens, i=0):
         n = int(n_str)
         items, j = [], i + 1
         for _ in range(n):
-            v, j = parse_value(tokens, j)
+            v, j = parse_value(tokens, j, keep)
             items.append(v)
         return ("T", tuple(items)), j
     if c == "G":
@@ -430,13 +432,13 @@ def parse_value(tokens, i=0):
                 items.append(None)
                 j += 1
             else:
-                v, j = parse_value(tokens, j + 1)
+                v, j = parse_value(tokens, j + 1, keep)
                 items.append(("J", v))
         return ("G", tuple(items)), j
     if c == "U":
         if t == "U-":
             return ("U", None, None), i + 1
-        v, j = parse_value(tokens, i + 1)
+        v, j = parse_value(tokens, i + 1, keep)
         return ("U", n_str, v), j
     raise ValueError("bad token %r" % t)
 
@@ -526,3 +528,25 @@ def has_multimap(tree):
     if tree[0] == "U":
         return has_multimap(tree[2])
     return False
+
+
+def permute_maps(tree, mode):
+    """reorder the entries of every map in a kept-order tree: mode 0 reverse, 1 rotate, 2 swap first two"""
+    if tree is None or isinstance(tree, str):
+        return tree
+    if tree[0] == "P":
+        items = [(k, permute_maps(x, mode)) for k, x in tree[1]]
+        if mode == 0:
+            items.reverse()
+        elif mode == 1 and items:
+            items = items[1:] + items[:1]
+        elif mode == 2 and len(items) > 1:
+            items[0], items[1] = items[1], items[0]
+        return ("P", tuple(items))
+    if tree[0] in "AT":
+        return (tree[0], tuple(permute_maps(x, mode) for x in tree[1]))
+    if tree[0] == "G":
+        return ("G", tuple(None if x is None else ("J", permute_maps(x[1], mode)) for x in tree[1]))
+    if tree[0] == "U":
+        return ("U", tree[1], permute_maps(tree[2], mode))
+    return tree
